@@ -355,3 +355,43 @@ Definition merge_item (ufix : bool) (capacity : Z) (s : aitem) (t : tlitem) (ah 
 Definition transfer (fx ufix : bool) (it : mitem) (bt ah : Z) : tlitem * (key * Z) * option (aitem * Z * list Z) :=
   let t := keep_f fx it bt in
   (t, key_from t bt, merge_item ufix agg_string_top_capacity aitem0 t ah []).
+
+(* ------------------------------------------------------------------------------------------ *)
+(* 7. row identity on the aggregator: Key.MarshalAppend (bucket.go)                             *)
+(* handleSendSourceBucket keys the rows of a second by k.XXHash (= MarshalAppend + hash of the bytes after the
+   timestamp) and GetOrCreateMultiItem(&k, nil, keyBytes): the map key of a row IS the marshalled key.
+   Here string tags are byte strings. Layout as the code produces it: ts (4, LE), metric (4), number of tags up to
+   the last non-zero one (1 byte), the tags (4 each), then every string tag up to the last non-empty one followed
+   by a zero byte, then one more zero byte (the "number of string tags" byte is written first at the position
+   where the strings start and is overwritten by them; the buffer is one byte longer than what is written). *)
+
+Record bkey := { b_ts : Z; b_metric : Z; b_tags : list Z; b_stags : list (list Z) }.
+
+(* everything up to the last element that is not "zero" *)
+Fixpoint trimp {A} (e : A -> bool) (l : list A) : list A :=
+  match l with
+  | [] => []
+  | x :: r => let r' := trimp e r in if e x && is_nil r' then [] else x :: r'
+  end.
+
+Definition le4 (z : Z) : list Z := [z mod 256; (z / 256) mod 256; (z / 256 / 256) mod 256; (z / 256 / 256 / 256) mod 256].
+
+Definition marshal_key (k : bkey) : list Z :=
+  let tags := trimp (Z.eqb 0) (b_tags k) in
+  let stags := trimp is_nil (b_stags k) in
+  le4 (b_ts k) ++ le4 (u32 (b_metric k)) ++ [zlen tags] ++ flat_map (fun t => le4 (u32 t)) tags ++
+  flat_map (fun s => s ++ [0]) stags ++ [0].
+
+(* the per-second map of the aggregator seen through its keys: row i is filed under the first row with the same bytes *)
+Fixpoint first_index (bs : list Z) (seen : list (list Z)) (i : Z) : Z :=
+  match seen with
+  | [] => i
+  | b :: r => if (fix eqb (x y : list Z) : bool :=
+                    match x, y with [], [] => true | a :: x', c :: y' => (a =? c) && eqb x' y' | _, _ => false end) bs b
+              then i else first_index bs r (i + 1)
+  end.
+Fixpoint file_rows (ks : list bkey) (seen : list (list Z)) : list Z :=
+  match ks with
+  | [] => []
+  | k :: ks' => let b := marshal_key k in first_index b seen 0 :: file_rows ks' (seen ++ [b])
+  end.
